@@ -12,7 +12,7 @@ pub fn run(ctx: &mut Ctx) {
     for k in 0..n {
         let idx = k * ctx.nshards + ctx.shard;
         if !ctx.begin_case(idx, "ledger-history") { continue; }
-        let cfg = HistCfg { faults_max: 0, restore: false, payments: ctx.prng.gen_range(3..=6), boundary_balances: ctx.prng.gen_range(0..3) != 0, valid_bias: k % 2 == 0 };
+        let cfg = HistCfg { close_tag_draws: false, faults_max: 0, restore: false, payments: if ctx.thorough() { ctx.prng.gen_range(3..=20) } else { ctx.prng.gen_range(3..=6) }, boundary_balances: ctx.prng.gen_range(0..3) != 0, valid_bias: k % 2 == 0 };
         let ok = run_history(ctx, &worlds[0], &worlds[1], &cfg);
         ctx.count(if ok { "history:complete" } else { "history:stopped-early" });
         ctx.traces += 1;
